@@ -18,7 +18,7 @@ LEVEL = "exploration"
 RULE = ("(a) exhaustive: 4096 regular files, one per permission value 0..07777, plus one entry of every creatable type, "
         "and 7 x 4096 zip members (every type x every permission) - mode string == stat.filemode, every permission / "
         "suid / sgid boolean == its bit, exactly one type boolean true and matching the mode's first character. "
-        "(b) generated metadata trees: owners incl. ids without a name, hard links, xattrs, each of the 41 capabilities "
+        "(b) generated metadata trees: owners incl. ids without a name, hard links, xattrs, each of the 41 capabilities (xattr revision 2 and the namespaced revision 3) "
         "x {p,i,ip} x {e,-} as raw vfs_cap_data (cross-checked with getcap), dot-files, multi-dot and upper-case "
         "extensions, empty/non-empty directories, dangling links; every selected column against os.lstat / pwd / grp / "
         "listxattr and the decomposition laws (path == dir/name, abspath == absdir/name, ext); extension classes "
@@ -57,8 +57,9 @@ def examples(tier):
     return 4200 if tier == "quick" else 60000
 
 
-def cap_blob(bits, flags, eff):
-    """raw vfs_cap_data revision 2: bits = list of capability numbers, flags in {'p','i','ip'}."""
+def cap_blob(bits, flags, eff, rev=2):
+    """raw vfs_cap_data: bits = list of capability numbers, flags in {'p','i','ip'}; revision 1 (one 32-bit pair),
+    2 (two pairs) or 3 (two pairs + the root id of a user namespace, as `setcap -n` writes)."""
     perm = [0, 0]
     inh = [0, 0]
     for b in bits:
@@ -66,8 +67,11 @@ def cap_blob(bits, flags, eff):
             perm[b // 32] |= 1 << (b % 32)
         if "i" in flags:
             inh[b // 32] |= 1 << (b % 32)
-    magic = 0x02000000 | (1 if eff else 0)
-    return struct.pack("<IIIII", magic, perm[0], inh[0], perm[1], inh[1])
+    magic = (rev << 24) | (1 if eff else 0)
+    if rev == 1:
+        return struct.pack("<III", magic, perm[0], inh[0])
+    raw = struct.pack("<IIIII", magic, perm[0], inh[0], perm[1], inh[1])
+    return raw + struct.pack("<I", 1000) if rev == 3 else raw
 
 
 def caps_text(bits, flags, eff):
@@ -289,11 +293,24 @@ def check_caps(out, base, capnums):
     for b in capnums:
         for flags in ("p", "i", "ip"):
             for eff in (False, True):
-                nm = "c%02d_%s_%s" % (b, flags, "e" if eff else "n")
-                p = os.path.join(base, nm)
-                open(p, "w").close()
-                os.setxattr(p, "security.capability", cap_blob([b], flags, eff))
-                expect[nm] = (b, flags, eff)
+                # every on-disk revision the kernel hands back: 2 (plain setcap), 3 (namespaced), 1 (legacy, caps < 32)
+                for rev in (2, 3, 1):
+                    if rev == 1 and b >= 32:
+                        continue
+                    nm = "c%02d_%s_%s%s" % (b, flags, "e" if eff else "n", "" if rev == 2 else "_r%d" % rev)
+                    p = os.path.join(base, nm)
+                    open(p, "w").close()
+                    try:
+                        os.setxattr(p, "security.capability", cap_blob([b], flags, eff, rev))
+                    except OSError:
+                        os.remove(p)      # this kernel / file system refuses the revision: not generated
+                        continue
+                    if os.getxattr(p, "security.capability")[3] != rev:
+                        os.remove(p)      # the kernel converted the revision on the way back
+                        continue
+                    expect[nm] = (b, flags, eff)
+                    if rev != 2:
+                        out.classes.append("cap-revision-%d" % rev)
     probe = CAPS[capnums[0]]
     other = CAPS[(capnums[0] + 7) % 41]
     rows = run(out, base, "select name, caps, has_caps(), has_cap('%s'), has_cap('%s'), has_xattrs from . into list" % (probe, other), 6,
